@@ -404,6 +404,39 @@ func ruleIDX3(c *Ctx) []Ob {
 							}
 						})
 					}
+					// the saving loop sits in a helper that is handed the whole slice: an element of the helper's
+					// own slice parameter is saved there
+					if !saved {
+						for _, wc := range wcalls {
+							if wc.Fn == fn {
+								continue
+							}
+							h := wc.Fn
+							for hpi, hp := range h.Params {
+								if _, isSl := hp.Type().Underlying().(*types.Slice); !isSl {
+									continue
+								}
+								elemOfParam := false
+								for _, og := range origins(wc.Doc) {
+									if u, ok := og.(*ssa.UnOp); ok && u.Op == token.MUL {
+										if ia, ok := u.X.(*ssa.IndexAddr); ok && (ia.X == ssa.Value(hp) || sameOrigin(ia.X, hp)) {
+											elemOfParam = true
+										}
+									}
+								}
+								if !elemOfParam {
+									continue
+								}
+								allCalls(fn, func(hc ssa.CallInstruction) {
+									if g := staticCallee(hc); g != nil && c.declared(g) == h && hpi < len(hc.Common().Args) {
+										if a := hc.Common().Args[hpi]; a == slice || sameOrigin(a, slice) {
+											saved = true
+										}
+									}
+								})
+							}
+						}
+					}
 					if !saved {
 						verdict, msg = VIOLATED, "the counter grows by len(x) but this function does not save exactly the elements of x"
 					} else {
